@@ -7,7 +7,7 @@ GROUP = dict(
     aliases=[(ST, 'AddStore'), (AD, 'Adder')],
     opaque_by_value=[ST],
     extern_re=[r'CompactEnumerableThreadLocal<.*>::(for_each|local)'],
-    roots=[AD + '::value', AD + '::reset', AD + '::count', {'lambda_in': AD + '::value', 'ordinal': 1}, {'lambda_in': AD + '::reset', 'ordinal': 1}],
+    roots=[AD + '::operator<<', AD + '::value', AD + '::reset', AD + '::count', {'lambda_in': AD + '::value', 'ordinal': 1}, {'lambda_in': AD + '::reset', 'ordinal': 1}],
     reviewed_compiler_conditionals=[],
     assumptions=['CompactEnumerableThreadLocal::for_each presents every slot ever used exactly once (abstract stub that calls the real lowered lambda); local() returns the private slot of the calling thread (stub)',
                  'quiescent reads: no sample is recorded while value() / reset() scan', 'sums wrap like two\'s complement 64-bit integers'],
@@ -15,5 +15,6 @@ GROUP = dict(
         dict(id='C19.adder.value', enforce='Adder_value', loops=True, backend='cadical', covers=['g_presented > 3']),
         dict(id='C19.adder.reset', enforce='Adder_reset', loops=True, backend='cadical', covers=['g_presented > 3']),
         dict(id='C19.adder.count', enforce='Adder_count', replace=['AddStore_local__1'], backend='cadical'),
+        dict(id='C19.adder.record', enforce='Adder_op_shl__int', replace=['Adder_count'], backend='cadical'),
     ],
 )
